@@ -112,6 +112,13 @@ CHECKS = {
                     'disconnects, name requests, unicasts, bus calls and broadcasts is checked for delivery, order and unique names.',
             'ref': 'DESIGN.md 2/C14', 'note': NOTE + ' Authentication is skipped (C06); histories are selector-driven (exhaustive within the bound).',
             'technique': SYM + ' for message fields; exhaustive bounded event histories'},
+    'C09': {'text': 'The real connect() over fake endpoints with a solver-chosen reachability vector; a scripted server transcript cut at '
+                    'a solver-chosen crash point (every byte offset, four variants) must leave the connect Deferred fired exactly once; '
+                    'an established connection with calls, timers and disconnect callbacks on the connection and on both kinds of '
+                    'proxy loses its transport: everything fails once, nothing fires later.',
+            'ref': 'DESIGN.md 2/C09', 'note': NOTE + ' All variables are finite selectors (crash points, vectors): exhaustive within the '
+                    'bound; the solver contributes coverage, not arithmetic. Real sockets are replaced by fake endpoints.',
+            'technique': SYM + ' (selector-driven: crash points and reachability vectors as solver variables)'},
 }
 _TODO = 'check not built yet in this revision (planned, see DESIGN.md section 2)'
 NOT_APPLICABLE = {('C%02d' % i): _TODO for i in range(1, 21)}
